@@ -647,7 +647,10 @@ pub fn c07_cases(seed: u64, first_id: usize, n: usize) -> Vec<Case> {
                 for b in 0..nb {
                     // diamonds: the same type may be picked twice across siblings or even here
                     let pick = rng.pick(&all).clone();
-                    t.bases.push((format!("l{l}t{k}b{b}"), pick));
+                    // a base field may be called `_something`; what is re-exposed through it and
+                    // has to be renamed then starts with an underscore without being internal
+                    let prefix = if rng.chance(1, 4) { "_" } else { "" };
+                    t.bases.push((format!("{prefix}l{l}t{k}b{b}"), pick));
                 }
                 if rng.chance(1, 4) {
                     // an extern type as a base: nothing to inherit from it, but it is a base
